@@ -28,6 +28,7 @@ ODD_DEFS = [
     "CREATE TABLE g12(k TEXT PRIMARY KEY DESC, v) WITHOUT ROWID",
     "CREATE TABLE g13(a, b)",        # gets columns with keyword / bare word defaults below (ALTER TABLE: the stored rows are short)
     "CREATE TABLE g14(a, b)",
+    "CREATE TABLE g15(a, b)",
 ]
 
 
@@ -57,6 +58,9 @@ def odd_db(path, rnd):
     con.execute("ALTER TABLE g13 ADD COLUMN g DEFAULT FALSE")
     con.execute("ALTER TABLE g14 ADD COLUMN w DEFAULT word")
     con.execute("ALTER TABLE g14 ADD COLUMN q DEFAULT 'TRUE'")
+    con.execute("ALTER TABLE g15 ADD COLUMN f DEFAULT true")
+    con.execute("ALTER TABLE g15 ADD COLUMN g DEFAULT False")
+    con.execute("ALTER TABLE g15 ADD COLUMN h DEFAULT tRuE")
     con.close()
     return made
 
